@@ -158,7 +158,8 @@ def run_tlc(module, cfg=None, env=None, workers=16, timeout=3600,
     os.makedirs(WORK, exist_ok=True)
     meta = tempfile.mkdtemp(prefix="tlc_", dir=WORK)
     cfg = cfg or (module + ".cfg")
-    cmd = ["java", "-XX:+UseParallelGC", "-Xmx6g", "-cp", JAR, "tlc2.TLC",
+    cmd = ["java", "-XX:+UseParallelGC", "-Xmx6g", "-Xss512m", "-cp", JAR,
+           "tlc2.TLC",
            "-workers", str(workers), "-metadir", meta, "-noGenerateSpecTE",
            "-config", cfg]
     cmd += list(extra)
@@ -207,7 +208,8 @@ def judge_events(events, module="TraceJudge", workers=16, timeout=3600,
                 if ev.get("op") != "globals"
                 for m in range(len(ev["models"]))}
     if not completed or set(verdicts) != expected:
-        tail = out[-3000:]
+        k = out.find("Error:")
+        tail = (out[k:k + 2500] + "\n...\n" + out[-800:]) if k >= 0 else out[-3000:]
         raise TLCError(f"TLC did not judge every event (completed={completed},"
                        f" {len(verdicts)}/{len(expected)} verdicts):\n{tail}")
     res["verdicts"] = verdicts
